@@ -9,12 +9,12 @@ import (
 )
 
 func init() {
-	for _, f := range []func() scen.Spec{scen.Core, scen.Basket, scen.Market, scen.BridgeSpec, scen.Large, scen.Expiry, scen.GovPool, scen.BasketLarge, scen.BasketMarket, scen.Mixed} {
+	for _, f := range []func() scen.Spec{scen.Core, scen.Basket, scen.Market, scen.BridgeSpec, scen.Large, scen.Expiry, scen.GovPool, scen.BasketLarge, scen.BasketMarket, scen.SparseGenesis, scen.Mixed} {
 		regSpec(f)
 	}
 	shared := func() []scen.Spec {
 		// cheapest first: time a scenario does not need flows to the later, more expensive ones
-		return []scen.Spec{scen.BridgeSpec(), scen.Mixed(), scen.Basket(), scen.Market(), scen.Core()}
+		return []scen.Spec{scen.SparseGenesis(), scen.BridgeSpec(), scen.Mixed(), scen.Basket(), scen.Market(), scen.Core()}
 	}
 	Registry["C01"] = func(tier string) int {
 		return engineA("C01", tier, append([]scen.Spec{scen.Large()}, shared()...),
@@ -39,12 +39,12 @@ func init() {
 			budget(tier, 200*time.Second, 15*time.Minute))
 	}
 	Registry["C05"] = func(tier string) int {
-		return engineA("C05", tier, []scen.Spec{scen.BasketMarket(), scen.Basket(), scen.BasketLarge(), scen.Mixed()},
+		return engineA("C05", tier, []scen.Spec{scen.SparseGenesis(), scen.BasketMarket(), scen.Basket(), scen.BasketLarge(), scen.Mixed()},
 			func() []explore.Monitor { return []explore.Monitor{&mon.C05{}} },
 			budget(tier, 150*time.Second, 12*time.Minute))
 	}
 	Registry["C06"] = func(tier string) int {
-		return engineA("C06", tier, []scen.Spec{scen.Market(), scen.Expiry(), scen.Mixed()},
+		return engineA("C06", tier, []scen.Spec{scen.SparseGenesis(), scen.Market(), scen.Expiry(), scen.Mixed()},
 			func() []explore.Monitor { return []explore.Monitor{&mon.C06{}} },
 			budget(tier, 150*time.Second, 12*time.Minute))
 	}
